@@ -2,7 +2,7 @@
 import sys, json
 pid, num = sys.argv[1], sys.argv[2]
 p = {json.loads(l)["id"]: json.loads(l) for l in open("/verif/properties.jsonl")}[pid]
-t = open("/verif/tools/seed_prompt.txt").read()
+t = open(sys.argv[3] if len(sys.argv)>3 else "/verif/tools/seed_prompt.txt").read()
 t = t.replace("WORKTREE", f"/tmp/seed-{pid}/wt").replace("PROPERTY_TEXT", p["title"] + ". " + p["statement"] + " (Quantified over: " + p["quantifier"]["text"] + ")")
 t = t.replace("ANCHORS", ", ".join(p["anchors"]["files"])).replace("NUM", num).replace("ID", pid)
 print(t)
